@@ -172,6 +172,7 @@ package cache
 //@ ghost rdN Int
 //@ ghost rdEOF Bool
 //@ ghost hStream GBytes
+//@ ghost hN Int
 
 // sync.Pool: Get yields an arbitrary value (call sites state what they assume about it).
 //@ extern (*sync.Pool).Get(p)
@@ -179,7 +180,7 @@ package cache
 //@ extern (*sync.Pool).Put(p, x)
 //@   pure
 
-//@ modset ioState() =rdStream, rdN, rdEOF, hStream, bwN, fsyncN
+//@ modset ioState() = rdStream, rdN, rdEOF, hStream, hN, bwN, fsyncN
 
 //@ extern io.ReadFull(r, buf)
 //@   modifies elems(buf)
@@ -191,14 +192,22 @@ package cache
 //@ extern crypto/sha256.New()
 //@   pure
 //@   ensures result != nil
-//@   gmodifies hStream
-//@   gensures hStream == sempty()
+//@   gmodifies hStream, hN
+//@   gensures hStream == sempty() && hN == 0
 
-// hash.Hash.Write (never fails, consumes all of p)
+// io.Writer.Write, as documented: 0 <= n <= len(p), and a short write comes with an error.
+// The ghost part is only meaningful for the writers this code base invokes through the
+// interface: a hash.Hash, or an io.MultiWriter whose first target is one; both hand all of
+// p to the hash (ASSUMED).
 //@ iface (io.Writer).Write(w, p)
 //@   pure
-//@   gmodifies hStream
-//@   gensures hStream == sapp(old(hStream), elems(p), offset(p), len(p))
+//@   ensures 0 <= result0 && result0 <= len(p) && (result0 < len(p) ==> result1 != nil)
+//@   gmodifies hStream, hN
+//@   gensures hStream == sapp(old(hStream), elems(p), offset(p), len(p)) && hN == old(hN) + len(p)
+
+//@ extern io.MultiWriter(writers)
+//@   pure
+//@   ensures result != nil
 
 // hash.Hash.Sum(nil): a fresh slice holding the digest of what was written so far
 //@ iface (hash.Hash).Sum(h, b)
